@@ -34,6 +34,7 @@ type Obligation struct {
 	Output  string
 	Bounded bool
 	Alts    []*Term           // alternative (stronger) goals: the obligation holds if any of them is proved
+	Splits  []*Term           // case split: if the plain query is undecided, the obligation holds if it is proved under E and under !E
 	GVKeys  map[string]string // solver-reported symbol -> input name
 }
 
@@ -108,6 +109,7 @@ type FnExec struct {
 	capTypes         map[string]CVal
 	arrOrigins       map[*Term]arrOrigin
 	rngDepth         int
+	splits           []*Term // contract `split` conditions of the function under verification (entry state)
 	curPC            *Term // path condition of the state being executed (for side queries)
 	sideCache        map[[2]int]bool
 	sideMemo         map[*Term]bool
